@@ -13,9 +13,10 @@ Theorem C03_vle_conserve : forall cf orc sp st st',
 Proof. exact vle_conserve_lemma. Qed.
 Print Assumptions C03_vle_conserve.
 
-(* no flow becomes negative.  [vle_hyp] is exactly what the proof forces: nothing for T,P / T,H /
-   T,S / P,H / P,S; 0 <= V <= 1, non-negative bubble/dew compositions and N_solutes >= 0 for the
-   V specifications; for x / y the lever-rule flows F*beta*y must lie in [0, mol_vle] *)
+(* no flow becomes negative.  [vle_hyp] is exactly what the proof forces: nothing for T,P / T,H / T,S / P,H / P,S; 0 <= V <= 1,
+   non-negative bubble/dew compositions and N_solutes >= 0 for the V specifications; for x= / y= (the lever-rule flows are
+   clipped to mol_vle since /repo dd55412) only that the composition multiplying the split fraction has no negative entry
+   -- the bubble-point y for x= (oracle contract), the user's y for y= -- and N_solutes >= 0 *)
 Theorem C03_vle_nonneg : forall cf orc sp st st',
   wf st -> nn st -> vle_hyp cf orc sp st -> vle cf orc sp st = VOk st' -> nn st'.
 Proof. exact vle_nonneg_lemma. Qed.
@@ -30,16 +31,23 @@ Theorem C03_vle_light_heavy : forall cf orc sp st st',
 Proof. exact vle_placed_lemma. Qed.
 Print Assumptions C03_vle_light_heavy.
 
-(* the lever-rule hypothesis cannot be dropped: with a bubble-point result y that is not a
-   composition (here it sums to 17/8) the x specification writes a negative liquid flow *)
+(* what is still needed of the lever rule: a composition with a NEGATIVE entry (here a bubble-point result (1/8, -1)) still
+   gives a negative vapour flow -- the clip bounds v from above only.  A y that merely does not sum to 1, or a split fraction
+   in the +-1e-5 band (the defect fixed by dd55412), no longer does: Example below. *)
 Definition cf2 := mkcfg [KVle; KVle] [0; 0] [18; 46].
-Definition orc_lever := mkorc 0 (fun _ => 0) (fun _ => 0) 0 0 (fun _ _ => (50000, [1#8; 2])) (fun _ _ => (0, []))
+Definition orc_lever := mkorc 0 (fun _ => 0) (fun _ => 0) 0 0 (fun _ _ => (50000, [1#8; -1])) (fun _ _ => (0, []))
   (fun _ _ _ => []) (fun _ => ([], 0)) (fun _ _ _ _ => 0) (fun _ _ _ _ _ => 0) (fun _ _ _ _ _ => 0).
 Definition st_lever := mkst [1; 1] [0; 0] [] 300 101325.
-Theorem C03_vle_nonneg_needs_lever_hypothesis :
-  exists st', vle cf2 orc_lever (SpTx 350 [3#4; 1#4]) st_lever = VOk st' /\ nthq (liq st') 1 < 0.
+Theorem C03_vle_nonneg_needs_nonneg_composition :
+  exists st', vle cf2 orc_lever (SpTx 350 [3#4; 1#4]) st_lever = VOk st' /\ nthq (vap st') 1 < 0.
 Proof. eexists. split; [vm_compute; reflexivity|]. vm_compute. reflexivity. Qed.
-Print Assumptions C03_vle_nonneg_needs_lever_hypothesis.
+Print Assumptions C03_vle_nonneg_needs_nonneg_composition.
+(* the earlier counterexample (a bubble-point y summing to 17/8) is now harmless: the flows stay within [0, mol] *)
+Definition orc_lever2 := mkorc 0 (fun _ => 0) (fun _ => 0) 0 0 (fun _ _ => (50000, [1#8; 2])) (fun _ _ => (0, []))
+  (fun _ _ _ => []) (fun _ => ([], 0)) (fun _ _ _ _ => 0) (fun _ _ _ _ _ => 0) (fun _ _ _ _ _ => 0).
+Example C03_lever_clip_example :
+  vle cf2 orc_lever2 (SpTx 350 [3#4; 1#4]) st_lever = VOk (mkst [36 # 40; 0] [4 # 40; 1] [] 350 50000).
+Proof. vm_compute. reflexivity. Qed.
 
 (* LLE.__call__ write-back, for every solver result / cached K / phase fraction *)
 Theorem C03_lle_conserve : forall islle o s s',
